@@ -136,3 +136,79 @@ def Agree (h : List Exch) : Prop := clientStates St.default h = serverStates St.
 instance (h : List Exch) : Decidable (Agree h) := by unfold Agree; infer_instance
 
 end Gallia.Replay
+
+/-! ### the selector of `DBUDSServer` (ECU name and / or properties), made explicit
+
+`selected` of a `Row` is what the WHERE clause of `respond_after_default` decides from the run a row belongs to:
+`e.name = ?` over the join `scan_run -> address -> ecu`, and `json_extract(s.properties_pre, '$.key') = ?` (or `IS NULL`)
+for every requested property. -/
+namespace Gallia.Replay
+
+/-- a JSON value as `json_extract` hands it to the comparison: SQL NULL (absent key or JSON null), an integer, a text,
+    or anything else by its JSON text -/
+inductive JVal
+  | null
+  | num (n : Int)
+  | str (s : String)
+  | json (text : String)
+deriving DecidableEq, Repr
+
+/-- what the database knows about the run a row was recorded in -/
+structure RunInfo where
+  ecuName : Option String               -- `ecu.name` reached through `scan_run.address -> address.ecu`; none: no ECU assigned
+  props : List (String × JVal)          -- top-level keys of `scan_run.properties_pre`
+deriving DecidableEq, Repr
+
+/-- `DBUDSServer(db_path, ecu, properties)` -/
+structure Selector where
+  ecu : Option String
+  props : Option (List (String × JVal))
+deriving DecidableEq, Repr
+
+/-- `json_extract(properties_pre, '$.k')`: SQL NULL when the key is absent -/
+def RunInfo.extract (ri : RunInfo) (k : String) : JVal :=
+  match ri.props.find? (fun kv => kv.1 == k) with
+  | some kv => kv.2
+  | none => .null
+
+/-- one `json_extract(...) = ?` / `IS NULL` conjunct; `x = NULL` is never true in SQL -/
+def propMatches (ri : RunInfo) (kv : String × JVal) : Bool :=
+  match kv.2 with
+  | .null => ri.extract kv.1 == .null
+  | v => ri.extract kv.1 == v
+
+/-- the run-level part of the WHERE clause -/
+def selects (sel : Selector) (ri : RunInfo) : Bool :=
+  (match sel.ecu with
+    | none => true
+    | some n => ri.ecuName == some n) &&
+  (match sel.props with
+    | none => true
+    | some ps => ps.all (propMatches ri))
+
+/-- a `scan_result` row together with its run -/
+structure DbRow where
+  id : Nat
+  run : RunInfo
+  state : St
+  req : Bytes
+  resp : Option Bytes
+deriving Repr
+
+def DbRow.view (sel : Selector) (r : DbRow) : Row := ⟨r.id, selects sel r.run, r.state, r.req, r.resp⟩
+
+/-- the replaying server started with selector `sel` on database `db` -/
+def replayDb (sel : Selector) (db : List DbRow) (reqs : List Bytes) : List (Option Bytes) :=
+  replayAll (db.map (DbRow.view sel)) {} reqs
+
+/-- what the recorder writes for run `ri` -/
+def recordDb (ri : RunInfo) (id0 : Nat) (st : St) : List Exch → List DbRow
+  | [] => []
+  | x :: xs => ⟨id0, ri, st, x.req, x.resp⟩ :: recordDb ri (id0 + 1) (clientUpdate st x.resp) xs
+
+/-- final client state after a history -/
+def clientFinal : St → List Exch → St
+  | st, [] => st
+  | st, x :: xs => clientFinal (clientUpdate st x.resp) xs
+
+end Gallia.Replay
